@@ -500,4 +500,65 @@ pub(crate) mod kani_verif {
         kani::cover!(r.is_ok(), "success reachable");
         kani::cover!(calls == 1 && !cb_ok, "rejection reachable");
     }
+
+    // ------------------------------------------------------------------ C05/C13: the public lifetime query
+    /// SigningKey::get_lifetime == leaves - counter for every stored key (HssPrivateKey::from by its contract, the real
+    /// HssPrivateKey::get_lifetime); a wiped / exhausted key gives Err
+    fn check_signing_key_lifetime<const L: usize>() {
+        let mut codes = [0u8; L];
+        let mut hs = [0u32; L];
+        let mut blob = [0xffu8; KEYLEN];
+        let mut i = 0;
+        while i < L {
+            codes[i] = any_lms_code(true);
+            hs[i] = spec_height_of_lms_code(codes[i]).unwrap();
+            blob[8 + i] = (codes[i] << 4) | 4;
+            i += 1;
+        }
+        let c: u64 = kani::any();
+        blob[..8].copy_from_slice(&c.to_be_bytes());
+        let seed: [u8; N] = kani::any();
+        blob[16..].copy_from_slice(&seed);
+        let sk = SigningKey::<H>::from_bytes(&blob).unwrap();
+        let r = sk.get_lifetime();
+        let leaves = spec_total_leaves(&hs);
+        if (c as u128) < leaves {
+            assert!(r.is_ok() && r.unwrap() as u128 == leaves - c as u128, "remaining lifetime == product of the tree sizes - counter");
+        }
+        kani::cover!(c > 40, "non-trivial counter reachable");
+    }
+    macro_rules! sk_lifetime_harness {
+        ($name:ident, $l:expr) => {
+            #[kani::proof]
+            #[kani::stub(zeroize::optimization_barrier, no_barrier)]
+            #[kani::stub(<[u8; 32] as tinyvec::Array>::default, fast_default)]
+            #[kani::stub(crate::hss::definitions::HssPrivateKey::from, stub_hss_from_ok)]
+            #[kani::unwind(36)]
+            fn $name() {
+                check_signing_key_lifetime::<$l>();
+            }
+        };
+    }
+    /// HssPrivateKey::from by its contract (c03_from_*, Verus v8_hss), without the arbitrary-failure branch of stub_hss_from
+    pub fn stub_hss_from_ok<H: HashChain>(
+        private_key: &ReferenceImplPrivateKey<H>,
+        _aux_data: &mut Option<MutableExpandedAuxData>,
+    ) -> Result<HssPrivateKey<H>, ()> {
+        let parameters = private_key.compressed_parameter.to::<H>()?;
+        let digits = crate::hss::reference_impl_private_key::kani_verif::contract_to(&private_key.compressed_used_leafs_indexes, &parameters);
+        let levels = parameters.len();
+        let mut k: HssPrivateKey<H> = Default::default();
+        for (i, p) in parameters.iter().enumerate() {
+            let used = digits[i] + if i + 1 < levels { 1 } else { 0 };
+            if used as usize > p.get_lms_parameter().number_of_lm_ots_keys() {
+                return Err(());
+            }
+            k.private_key.push(LmsPrivateKey::new(Seed::default(), [0u8; ILEN], used, *p.get_lmots_parameter(), *p.get_lms_parameter()));
+        }
+        Ok(k)
+    }
+    // @h name=c05_sk_lifetime_l1 props=C05,C13!,C11 tier=quick kind=proved cfg=L2w8 timeout=900 funcs=SigningKey::get_lifetime;HssPrivateKey::get_lifetime contract="SigningKey::get_lifetime == 2^(sum h) - counter for every 1-level key blob and every counter inside the lifetime (expanded key by the contract of HssPrivateKey::from)"
+    sk_lifetime_harness!(c05_sk_lifetime_l1, 1);
+    // @h name=c05_sk_lifetime_l2 props=C05,C13!,C11 tier=quick kind=proved cfg=L2w8 timeout=900 funcs=SigningKey::get_lifetime;HssPrivateKey::get_lifetime contract="same, every 2-level key blob (all height pairs incl. mixed)"
+    sk_lifetime_harness!(c05_sk_lifetime_l2, 2);
 }
